@@ -1015,12 +1015,26 @@ fn c14_junit(h: &RHistory, out: &mut Vec<Violation>) {
         }
         Ok(String::new())
     };
+    // (suite, "path-or-name" found in a `Defined: <feature>:l:c` / `hook failed <feature>:l:c` line of a case's output)
+    let found_labels: std::cell::RefCell<Vec<(String, String)>> = std::cell::RefCell::new(Vec::new());
     let mut finish_case = |case: &mut Option<(String, String, String)>, suite: &str, sysout: &mut String, got_cases: &mut Bag, got_steps: &mut Bag| {
         if let Some((name, status, tok)) = case.take() {
             if suite == "Errors" {
                 add(got_cases, format!("perr|{tok}"));
             } else {
                 let fname = suite.strip_prefix("Feature: ").unwrap_or(suite);
+                for line in sysout.lines() {
+                    let t = line.trim_start();
+                    let rest = t.strip_prefix("Defined: ").or_else(|| t.split_once(" hook failed ").map(|(_, r)| r));
+                    if let Some(rest) = rest {
+                        // "<label>:<line>:<col>..." - the label itself may contain colons
+                        let mut parts: Vec<&str> = rest.split(':').collect();
+                        if parts.len() >= 3 {
+                            parts.truncate(parts.len() - 2);
+                            found_labels.borrow_mut().push((fname.to_owned(), parts.join(":")));
+                        }
+                    }
+                }
                 add(got_cases, format!("case|{fname}|{name}|{status}|{tok}"));
                 let mut ctx = BasicCtx::default();
                 let mut bag = Bag::new();
@@ -1124,6 +1138,25 @@ fn c14_junit(h: &RHistory, out: &mut Vec<Violation>) {
     if depth != 0 {
         out.push(v("malformed", format!("JUnit XML: unbalanced elements (depth {depth})")).attr("reporter", rep));
         return;
+    }
+    // every location printed inside a case names the case's own feature (its path, or its name if it has none)
+    {
+        let mut label_of: BTreeMap<String, String> = BTreeMap::new();
+        for e in &h.input {
+            if let Some(f) = &e.feature {
+                let fname = format!("{f}{}", e.fpath.as_ref().map(|p| format!(": {p}")).unwrap_or_default());
+                label_of.entry(fname).or_insert_with(|| e.fpath.clone().unwrap_or_else(|| f.clone()));
+            }
+        }
+        for (fname, found) in found_labels.borrow().iter() {
+            // (the step-definition line of a `Defined:` pair is followed by more text on some lines: compare the head)
+            if let Some(want) = label_of.get(fname) {
+                if !found.starts_with(want.as_str()) {
+                    out.push(v("location-of-another-feature", format!("a case of `{fname}` prints the location `{found}:..`, its feature is `{want}`")).attr("reporter", rep));
+                    break;
+                }
+            }
+        }
     }
     // expected: one case per attempt, with the status of its decisive event
     let mut want_cases = Bag::new();
